@@ -7,12 +7,16 @@
  * wait/post, s sleep one tick, r<k>/x<k> read / write one byte on pipe k (k = 0, 1) through the
  * library's read()/write() shims: a read on an empty pipe parks the fiber in
  * fiber_wait_for_event (P-lock on the descriptor's spinlock) until a poll on some kernel
- * thread reports the descriptor readable */
+ * thread reports the descriptor readable; e = fiber_wait_for_event on a descriptor epoll refuses
+ * (a directory: EPERM) - the call must fail and leave no trace of the caller behind; c = close
+ * that descriptor through the close() shim (which wakes whoever is recorded as waiting on it) and
+ * open it again */
 #define VH_REG_RESULT 1
 #include "rtcommon.h"
 #include "fiber_event.h"
 #include "fiber_mutex.h"
 #include "fiber_semaphore.h"
+#include <fcntl.h>
 #include <unistd.h>
 
 
@@ -20,6 +24,7 @@ static fiber_mutex_t mtx;
 static fiber_semaphore_t sem;
 static int holding[VH_MAXF];
 static int pipes[2][2];
+static volatile int dirfd_ = -1;
 
 static void do_op(int t, const char* op) {
   switch (op[0]) {
@@ -30,6 +35,19 @@ static void do_op(int t, const char* op) {
     case 'p': fiber_semaphore_post(&sem); break;
     case 's': fiber_sleep(0, 1000); break;
     case 'r': { char c = 0; int k = op[1] == '1'; if (read(pipes[k][0], &c, 1) != 1) vr_finish("IOERR"); break; }
+    case 'e': {
+      int fd = dirfd_;
+      if (fd >= 0 && fiber_wait_for_event(fd, FIBER_POLL_IN) != FIBER_ERROR) vr_finish("IOERR");
+      break;
+    }
+    case 'c': {
+      int fd = dirfd_;
+      dirfd_ = -1;
+      if (fd >= 0) close(fd);
+      fiber_yield();
+      dirfd_ = open("/", O_RDONLY | O_DIRECTORY);
+      break;
+    }
     case 'x': { char c = 'x'; int k = op[1] == '1'; if (write(pipes[k][1], &c, 1) != 1) vr_finish("IOERR"); break; }
   }
 }
@@ -44,6 +62,7 @@ VH_NOINSTR int main(int argc, char** argv) {
   /* posts by the script always outnumber waits (generator), plus slack */
   fiber_semaphore_init(&sem, 0);
   if (pipe(pipes[0]) || pipe(pipes[1])) return 2;
+  dirfd_ = open("/", O_RDONLY | O_DIRECTORY);
   vr_note("init rt %d", k);
   vh_rt_run_join(k, do_op, 0);
   /* let the system go quiescent once (the idle monitor looks at the run queues then) */
